@@ -46,6 +46,8 @@ def parseInput : List String → Option Input
   | ["hook", h] => do let b ← hexOr h; pure (.hookDone (some b))
   | ["connect", e] => do let e ← bool? e; pure (.connectDone e)
   | ["hookkill"] => some .hookKill
+  | ["connectr", "none"] => some (replyInput none)
+  | ["connectr", h] => do let b ← hexOr h; pure (replyInput (some b))
   | _ => none
 
 def render (new : State) : String :=
@@ -60,6 +62,12 @@ def stepLine (st : State) (line : String) : State × String :=
     match (match p with | "tcp" => some Proto.tcp | "udp" => some Proto.udp | _ => none), bool? f, bool? c with
     | some p, some f, some c => (init p f c, "ok")
     | _, _, _ => (st, "bad-op")
+  | ["openreply", k, h] =>
+    -- what `open_connection` completes the command with: k = ok | oserror | cancelled, h = str(e)
+    match (match k with | "ok" => some ConnectOutcome.ok | "cancelled" => some ConnectOutcome.cancelled
+                        | "oserror" => (hexOr h).map ConnectOutcome.oserror | _ => none) with
+    | some o => (st, match openConnectionReply o with | none => "none" | some b => showBytes b)
+    | none => (st, "bad-op")
   | ["resetx", p, f, c, cd, sd] =>
     match (match p with | "tcp" => some Proto.tcp | "udp" => some Proto.udp | _ => none), bool? f, bool? c, bool? cd, bool? sd with
     | some p, some f, some c, some cd, some sd => (initX p f c cd sd, "ok")
